@@ -645,6 +645,51 @@ func run(e *core.Env) {
 				trial(kind, "replayed", linkXV, append([]byte(nil), orig...), hop)
 				e.Fault("replay")
 			}
+			// (c+) replay at an exact distance: the ping just handled was sealed in the encrypted
+			// priority class (error reports travel that way once keys exist) and is the newest frame
+			// of that class V has from X. X then seals frames that are lost, so that the next frame V
+			// gets from X is exactly 63, 64 or 65 numbers ahead - the edge of what V keeps track of -
+			// and the copy of the old ping comes after it.
+			if len(orig) > 52 && frame.MessageType(orig[4]).Class() == frame.MessageClassPriorityEncrypted && tp.Chance(1, 3) {
+				if xs := X.State.GetSession(V.IP); xs != nil && xs.Encryption().IsSetUp() {
+					if pf, err := mesh.ParseCrossing(parser, orig); err == nil {
+						sOrig := pf.(*frame.FrameV1).SequenceNum()
+						pf.ReturnToPool()
+						sealCtrl := func(txt string) (uint32, []byte) {
+							body := mesh.PingBody(X, mesh.ProbeType, uint64(tp.Uint32())+1, 0, true, []byte(txt))
+							cf, err := X.Inst.Builder.NewFrameV1(X.IP, V.IP, frame.RouterCtrl, nil, body, nil)
+							if err != nil {
+								return 0, nil
+							}
+							defer cf.ReturnToPool()
+							if err := cf.Seal(xs); err != nil {
+								return 0, nil
+							}
+							cf.SetTTL(31)
+							d, _ := cf.FrameDataWithMargins(0, 0)
+							return cf.SequenceNum(), append([]byte(nil), d...)
+						}
+						if n1, _ := sealCtrl("lost"); n1 == sOrig+1 && sOrig < 0xFFFF0000 {
+							d := uint32([]int{64, 64, 63, 65}[tp.Intn(4)])
+							xh := &state.EncryptionSessionTestHelper{EncryptionSession: xs.Encryption()}
+							xh.PrioSetOut(sOrig + d - 1) // (the numbers in between stand for lost frames)
+							if n2, newer := sealCtrl("newer"); newer != nil && n2 == sOrig+d {
+								inject(linkXV, newer)
+								if tp.Chance(1, 2) {
+									// ... after what the old ping did has worn off (connection states of
+									// refused flows are kept for seconds): a copy that is handled again
+									// shows
+									ms.Net.RunFor(tp, time.Duration(11+tp.Intn(30))*time.Second, 20000)
+									e.Fault("clock_jump")
+								}
+								trial(kind, "replayed-at-exact-distance", linkXV, append([]byte(nil), orig...), false)
+								e.Fault("replay_old")
+								e.Probe("replay_at_the_edge_of_the_window")
+							}
+						}
+					}
+				}
+			}
 		}
 		// honest network continues
 		ms.Net.RunFor(tp, time.Duration(100+tp.Intn(900))*time.Millisecond, 5000)
